@@ -10,6 +10,7 @@ INVARIANT LawClosedWidening
 INVARIANT LawTimeUnbounded
 INVARIANT LawWitness
 INVARIANT LawProbesCoverVertices
+INVARIANT LawProbesOnSegments
 INVARIANT LawSomeProbeOutside
 INVARIANT LawLimbs
 INVARIANT LawMonoComparable
